@@ -16,6 +16,9 @@ def toInt! (s : String) : Int := s.toInt?.getD 0
 def step (st : St) (toks : List String) : St × Option String :=
   match toks with
   | ["cfg", "smooth", i] => ({ kind := .smooth ⟨toInt! i⟩ ⟨0⟩, now := 0, nontrivial := st.nontrivial }, none)
+  | ["cfg", "smoothp", mx, per] =>
+      -- `SmoothBuilder(maxExecutions, period)`: interval = period / maxExecutions (Go's truncating division)
+      ({ kind := .smooth ⟨Int.tdiv (toInt! per) (toInt! mx)⟩ ⟨0⟩, now := 0, nontrivial := st.nontrivial }, none)
   | ["cfg", "bursty", pp, per] =>
       ({ kind := .bursty ⟨toInt! pp, toInt! per⟩ ⟨toInt! pp, 0⟩, now := 0, nontrivial := st.nontrivial }, none)
   | ["t", t] => ({ st with now := toInt! t }, none)
